@@ -102,13 +102,17 @@ def world_and_layout(draw, min_envs=1, max_envs=3, max_customs=2, need_ce=None, 
     ces = []
     in_ce: List[str] = []
     if has_ce:
-        # one composite over a generated non-empty subset (usually everything)
+        # one composite over a generated non-empty subset (usually everything); sometimes a second,
+        # independent composite envelope over the remaining units
         if (partial_ce or draw(st.integers(0, 3)) == 0) and len(units) > 1:
             k = draw(st.integers(1, len(units) - (1 if partial_ce else 0)))
             in_ce = sorted(draw(st.permutations(units))[:k])
         else:
             in_ce = list(units)
         ces.append(in_ce)
+        rest = [u for u in units if u not in in_ce]
+        if rest and draw(st.booleans()):
+            ces.append(rest)
     spec = dict(envs=envs, customs=customs, ces=ces)
     cls = st.sampled_from(classes or STATE_CLASSES)
     # ---- layout ----
@@ -116,35 +120,36 @@ def world_and_layout(draw, min_envs=1, max_envs=3, max_customs=2, need_ce=None, 
     env_mode = {}
     for i in range(len(envs)):
         env_mode[f"e{i}"] = draw(st.sampled_from(["own", "own", "FP", "PF"]))
-    group: Dict[str, int] = {}
-    subs_in_ce = []
-    for u in in_ce:
-        subs_in_ce += [u + ".f", u + ".p"] if u.startswith("e") else [u]
-    n_groups = draw(st.integers(0, 2)) if subs_in_ce else 0
-    if n_groups:
-        for s in subs_in_ce:
-            g = draw(st.integers(-1, n_groups - 1))
-            if g >= 0:
-                group[s] = g
-        # a combined envelope moves as a whole
-        for u in in_ce:
-            if u.startswith("e") and env_mode[u] != "own":
-                gs = [group.get(u + ".f"), group.get(u + ".p")]
-                g = next((x for x in gs if x is not None), None)
-                if g is not None:
-                    group[u + ".f"] = g
-                    group[u + ".p"] = g
     lv12 = [l for l in levels if l >= 1] or [1]
     for i in range(len(envs)):
         u = f"e{i}"
         if env_mode[u] != "own":
             mem = [u + ".f", u + ".p"] if env_mode[u] == "FP" else [u + ".p", u + ".f"]
             layout.append(dict(members=mem, via="env", level=draw(st.sampled_from(lv12)), state=dict(cls=draw(cls), seed=draw(seeds))))
-    for g in range(n_groups):
-        mem = [s for s in subs_in_ce if group.get(s) == g]
-        if len(mem) >= 1:
-            mem = list(draw(st.permutations(mem)))
-            layout.append(dict(members=mem, via="ce0", level=draw(st.sampled_from(lv12)), state=dict(cls=draw(cls), seed=draw(seeds))))
+    for ci, ce_units in enumerate(ces):
+        group: Dict[str, int] = {}
+        subs_in_ce = []
+        for u in ce_units:
+            subs_in_ce += [u + ".f", u + ".p"] if u.startswith("e") else [u]
+        n_groups = draw(st.integers(0, 2)) if subs_in_ce else 0
+        if n_groups:
+            for s in subs_in_ce:
+                g = draw(st.integers(-1, n_groups - 1))
+                if g >= 0:
+                    group[s] = g
+            # a combined envelope moves as a whole
+            for u in ce_units:
+                if u.startswith("e") and env_mode[u] != "own":
+                    gs = [group.get(u + ".f"), group.get(u + ".p")]
+                    g = next((x for x in gs if x is not None), None)
+                    if g is not None:
+                        group[u + ".f"] = g
+                        group[u + ".p"] = g
+        for g in range(n_groups):
+            mem = [s for s in subs_in_ce if group.get(s) == g]
+            if len(mem) >= 1:
+                mem = list(draw(st.permutations(mem)))
+                layout.append(dict(members=mem, via=f"ce{ci}", level=draw(st.sampled_from(lv12)), state=dict(cls=draw(cls), seed=draw(seeds))))
     placed = {m for b in layout for m in b["members"]}
     all_subs = []
     for i in range(len(envs)):
@@ -236,8 +241,8 @@ def comp_op(info: Info, members: List[str]):
 def step(draw, info: Info, kinds):
     k = draw(st.sampled_from(kinds))
     subs = info.subs
-    ce = "ce0" if info.ce_members else None
-    mem = info.ce_members.get("ce0", [])
+    ce = draw(st.sampled_from(sorted(info.ce_members))) if info.ce_members else None
+    mem = info.ce_members.get(ce, []) if ce else []
 
     def entry_for(ts):
         es = []
@@ -320,7 +325,7 @@ def step(draw, info: Info, kinds):
         if call == "new_ce":
             units = info.spec["ces"][0]
             extra = [u for u in ([f"e{i}" for i in range(len(info.spec["envs"]))] + [f"c{i}" for i in range(len(info.spec["customs"]))]) if u not in units]
-            pool = ["ce0"] + extra + list(units)
+            pool = sorted(info.ce_members) + extra + list(units)
             n = draw(st.integers(1, min(3, len(pool))))
             return dict(k="struct", call="new_ce", members=list(draw(st.permutations(pool))[:n]))
         n = draw(st.integers(1, min(4, len(mem))))
@@ -364,5 +369,13 @@ def program_case(draw, kinds, max_steps=4, world_kwargs=None, min_steps=1):
     spec, layout = draw(world_and_layout(**(world_kwargs or {})))
     info = Info(spec, layout)
     n = draw(st.integers(min_steps, max_steps))
-    steps = [draw(step(info, kinds)) for _ in range(n)]
+    steps = []
+    for _ in range(n):
+        s_ = draw(step(info, kinds))
+        # histories matter: often address the subsystem the previous step addressed again
+        if steps and s_["k"] == "op" and steps[-1]["k"] == "op" and len(s_["targets"]) == 1 and len(steps[-1]["targets"]) == 1 and draw(st.booleans()):
+            prev = steps[-1]["targets"][0]
+            if info.kind[prev] == info.kind[s_["targets"][0]]:
+                s_ = dict(s_, targets=[prev], entry=steps[-1]["entry"] if draw(st.booleans()) else "state")
+        steps.append(s_)
     return dict(spec=spec, layout=layout, contraction=draw(st.booleans()), steps=steps)
